@@ -15,7 +15,11 @@ def cfgNow : Cfg :=
     dropOnCreate := Generated.C10.createDropsCache
     dropOnDelete := Generated.C10.deleteDropsCache
     applyFilter := Generated.C10.filterAppliedBySourceIterator
-    rearm := Generated.C10.workerDoneRearms }
+    rearm := Generated.C10.workerDoneRearms
+    saveOnCreate := Generated.C10.createSavesRegistry
+    saveOnDelete := Generated.C10.deleteSavesRegistry
+    saveOnShutdown := Generated.C10.shutdownSavesRegistry
+    startChecksPipe := Generated.C10.startWorkerChecksPipeAlive }
 
 /-- structural facts the shape of the model relies on (each is re-read from the source on every run) -/
 theorem model_shape_facts :
@@ -109,8 +113,10 @@ theorem no_stranded_data (n : Nat) (l : Nat → Bool) (p : Nat → Bytes) (f : E
     (st.srcs s).desc = some d → st.closed = true ∨ d.charged = true ∨ ¬ d.pos < d.lastKnown ∨ d.stale = true := by
   intro st hd
   have hre : cfgNow.rearm = true := by decide
-  have h0 : NS (init n l p f o) := by intro s d h; simp [init] at h
-  exact run_ns cfgNow hre _ ls (ginv_init cfgNow n l p f o) h0 s d hd
+  have hchk : cfgNow.startChecksPipe = false := by decide
+  have h0 : NS cfgNow (init n l p f o) := by intro s d h; simp [init] at h
+  have h := run_ns cfgNow hre _ ls (ginv_init cfgNow n l p f o) h0 s d hd
+  simpa [noStart, hchk] using h
 
 /-- a charged descriptor has a live worker goroutine, and only a charged one has -/
 theorem charged_iff_worker (n : Nat) (l : Nat → Bool) (p : Nat → Bytes) (f : Ev → Bool) (o : Bool) (ls : List Label)
@@ -121,30 +127,32 @@ theorem charged_iff_worker (n : Nat) (l : Nat → Bool) (p : Nat → Bytes) (f :
   have hg : GInv cfgNow st := run_ginv cfgNow _ ls (ginv_init cfgNow n l p f o)
   exact ((hg.1 s).2 d hd).2.2.2.1
 
-/-- **Deleting the pipe stops the copying**: once the pipe is deleted no step changes its partition, and it stays deleted. -/
-theorem delete_stops (st st' : State) (lb : Label) (hdel : st.pipe = .deleted) (hs : step cfgNow st lb = some st') :
-    st'.dest = st.dest ∧ st'.pipe = .deleted := by
+/-- **Deleting the pipe stops the copying**: once the pipe is deleted (and, as `DeletePipe` saves the registry, gone from
+`pipes.dat`) no step changes its partition, and it stays deleted — also across shutdown and restart. -/
+theorem delete_stops (st st' : State) (lb : Label) (hdel : st.pipe = .deleted) (hreg : st.reg = false)
+    (hs : step cfgNow st lb = some st') :
+    st'.dest = st.dest ∧ st'.pipe = .deleted ∧ st'.reg = false := by
   have _fact : Generated.C10.deleteCancelsWorkers = true := by decide
   cases lb with
   | write s b =>
     simp only [step] at hs; split at hs
     · cases hs
-    · simp only [Option.some.injEq] at hs; subst hs; exact ⟨rfl, hdel⟩
+    · simp only [Option.some.injEq] at hs; subst hs; exact ⟨rfl, hdel, hreg⟩
   | enqueue i =>
     simp only [step] at hs; split at hs
     · cases hs
     · split at hs
       · cases hs
-      · simp only [Option.some.injEq] at hs; subst hs; exact ⟨rfl, hdel⟩
+      · simp only [Option.some.injEq] at hs; subst hs; exact ⟨rfl, hdel, hreg⟩
   | notify =>
     simp only [step] at hs; split at hs
     · cases hs
     · split at hs
       · cases hs
-      · split at hs <;> (simp only [Option.some.injEq] at hs; subst hs; exact ⟨rfl, hdel⟩)
+      · split at hs <;> (simp only [Option.some.injEq] at hs; subst hs; exact ⟨rfl, hdel, hreg⟩)
   | wopen s =>
     simp only [step] at hs; split at hs
-    · simp only [Option.some.injEq] at hs; subst hs; exact ⟨rfl, hdel⟩
+    · simp only [Option.some.injEq] at hs; subst hs; exact ⟨rfl, hdel, hreg⟩
     · cases hs
   | wcopy s k =>
     simp only [step] at hs; split at hs
@@ -154,16 +162,16 @@ theorem delete_stops (st st' : State) (lb : Label) (hdel : st.pipe = .deleted) (
     · cases hs
   | wsave s =>
     simp only [step] at hs; split at hs
-    · simp only [Option.some.injEq] at hs; subst hs; exact ⟨rfl, hdel⟩
+    · simp only [Option.some.injEq] at hs; subst hs; exact ⟨rfl, hdel, hreg⟩
     · cases hs
   | wtimeout s =>
     simp only [step] at hs; split at hs
-    · simp only [Option.some.injEq] at hs; subst hs; exact ⟨rfl, hdel⟩
-    · simp only [Option.some.injEq] at hs; subst hs; exact ⟨rfl, hdel⟩
+    · simp only [Option.some.injEq] at hs; subst hs; exact ⟨rfl, hdel, hreg⟩
+    · simp only [Option.some.injEq] at hs; subst hs; exact ⟨rfl, hdel, hreg⟩
     · cases hs
   | wdone s =>
     simp only [step] at hs; split at hs
-    · simp only [Option.some.injEq] at hs; subst hs; exact ⟨rfl, hdel⟩
+    · simp only [Option.some.injEq] at hs; subst hs; exact ⟨rfl, hdel, hreg⟩
     · cases hs
   | create =>
     simp only [step] at hs; split at hs
@@ -176,29 +184,134 @@ theorem delete_stops (st st' : State) (lb : Label) (hdel : st.pipe = .deleted) (
   | shutdown =>
     simp only [step] at hs; split at hs
     · cases hs
-    · simp only [Option.some.injEq] at hs; subst hs; exact ⟨rfl, hdel⟩
+    · simp only [Option.some.injEq] at hs; subst hs; exact ⟨rfl, hdel, hreg⟩
   | halt =>
     simp only [step] at hs; split at hs
-    · simp only [Option.some.injEq] at hs; subst hs; exact ⟨rfl, hdel⟩
+    · simp only [Option.some.injEq] at hs; subst hs
+      refine ⟨rfl, hdel, ?_⟩
+      simp [hdel, hreg]
     · cases hs
   | restart =>
     simp only [step] at hs; split at hs
-    · simp only [Option.some.injEq] at hs; subst hs; exact ⟨rfl, hdel⟩
+    · simp only [Option.some.injEq] at hs; subst hs
+      refine ⟨rfl, ?_, hreg⟩
+      simp [hreg, hdel]
     · cases hs
 
 /-- the same along a whole trace -/
-theorem delete_stops_forever (st : State) (ls : List Label) (hdel : st.pipe = .deleted) :
+theorem delete_stops_forever (st : State) (ls : List Label) (hdel : st.pipe = .deleted) (hreg : st.reg = false) :
     (run cfgNow st ls).dest = st.dest := by
   induction ls generalizing st with
   | nil => rfl
   | cons lb ls ih =>
     simp only [run]
     cases hs : step cfgNow st lb with
-    | none => exact ih st hdel
+    | none => exact ih st hdel hreg
     | some st' =>
-      obtain ⟨h1, h2⟩ := delete_stops st st' lb hdel hs
+      obtain ⟨h1, h2, h3⟩ := delete_stops st st' lb hdel hreg hs
       simp only []
-      rw [ih st' h2, h1]
+      rw [ih st' h2 h3, h1]
+
+/-! ### the registry file -/
+
+/-- **The registry file agrees with the registry** (repairs 9273e4f: `CreatePipe` and `DeletePipe` save it; `Shutdown`
+saves it too): in every reachable state `pipes.dat` lists the pipe iff it is live. -/
+theorem registry_file_matches (n : Nat) (l : Nat → Bool) (p : Nat → Bytes) (f : Ev → Bool) (o : Bool) (ls : List Label) :
+    let st := run cfgNow (init n l p f o) ls
+    st.reg = (st.pipe == .live) := by
+  intro st
+  have hc : cfgNow.saveOnCreate = true := by decide
+  have hd : cfgNow.saveOnDelete = true := by decide
+  have hsd : cfgNow.saveOnShutdown = true := by decide
+  suffices h : ∀ (st0 : State), st0.reg = (st0.pipe == .live) → (run cfgNow st0 ls).reg = ((run cfgNow st0 ls).pipe == .live) from
+    h _ (by simp [init])
+  induction ls with
+  | nil => intro st0 h0; simpa [run] using h0
+  | cons lb ls ih =>
+    intro st0 h0
+    simp only [run]
+    cases hs : step cfgNow st0 lb with
+    | none => exact ih st0 h0
+    | some st1 =>
+      apply ih st1
+      cases lb with
+      | write s b =>
+        simp only [step] at hs; split at hs
+        · cases hs
+        · simp only [Option.some.injEq] at hs; subst hs; exact h0
+      | enqueue i =>
+        simp only [step] at hs; split at hs
+        · cases hs
+        · split at hs
+          · cases hs
+          · simp only [Option.some.injEq] at hs; subst hs; exact h0
+      | notify =>
+        simp only [step] at hs; split at hs
+        · cases hs
+        · split at hs
+          · cases hs
+          · split at hs <;> (simp only [Option.some.injEq] at hs; subst hs; exact h0)
+      | wopen s =>
+        simp only [step] at hs; split at hs
+        · simp only [Option.some.injEq] at hs; subst hs; exact h0
+        · cases hs
+      | wcopy s k =>
+        simp only [step] at hs; split at hs
+        · split at hs
+          · cases hs
+          · simp only [Option.some.injEq] at hs; subst hs; exact h0
+        · cases hs
+      | wsave s =>
+        simp only [step] at hs; split at hs
+        · simp only [Option.some.injEq] at hs; subst hs; exact h0
+        · cases hs
+      | wtimeout s =>
+        simp only [step] at hs; split at hs
+        · simp only [Option.some.injEq] at hs; subst hs; exact h0
+        · simp only [Option.some.injEq] at hs; subst hs; exact h0
+        · cases hs
+      | wdone s =>
+        simp only [step] at hs; split at hs
+        · simp only [Option.some.injEq] at hs; subst hs; exact h0
+        · cases hs
+      | create =>
+        simp only [step] at hs; split at hs
+        · cases hs
+        · simp only [Option.some.injEq] at hs; subst hs; simp [hc]
+      | delete =>
+        simp only [step] at hs; split at hs
+        · cases hs
+        · simp only [Option.some.injEq] at hs; subst hs; simp [hd]
+      | shutdown =>
+        simp only [step] at hs; split at hs
+        · cases hs
+        · simp only [Option.some.injEq] at hs; subst hs; exact h0
+      | halt =>
+        simp only [step] at hs; split at hs
+        · simp only [Option.some.injEq] at hs; subst hs; simp [hsd]
+        · cases hs
+      | restart =>
+        simp only [step] at hs; split at hs
+        · simp only [Option.some.injEq] at hs; subst hs
+          simp only []
+          cases hp : st0.pipe <;> simp [h0, hp]
+        · cases hs
+
+/-- **The registry survives every restart**: a restart step never changes which pipe exists — a live pipe stays live,
+a deleted one stays deleted (it does not come back and copy again), an absent one stays absent. -/
+theorem registry_survives_restart (n : Nat) (l : Nat → Bool) (p : Nat → Bytes) (f : Ev → Bool) (o : Bool) (ls : List Label)
+    (st' : State) :
+    let st := run cfgNow (init n l p f o) ls
+    step cfgNow st .restart = some st' → st'.pipe = st.pipe ∧ st'.reg = st.reg := by
+  intro st hs
+  have hreg := registry_file_matches n l p f o ls
+  simp only [step] at hs; split at hs
+  · simp only [Option.some.injEq] at hs; subst hs
+    refine ⟨?_, rfl⟩
+    simp only []
+    have h0 : st.reg = (st.pipe == .live) := hreg
+    cases hp : st.pipe <;> simp [h0, hp]
+  · cases hs
 
 /-! ### against the property's specification -/
 
@@ -304,39 +417,122 @@ theorem c10_full_false : ¬ C10_full := by
   rw [c2, c3] at this
   exact absurd this (by decide)
 
-/-- **Clean restart at a quiescent point keeps the positions**: if a source's descriptor has copied anything
-(`start < Pos`) and no worker is running, then shutdown → halt → restart brings the descriptor back with the same
-`Pos` and the same start, and the pipe partition is untouched — so the copy invariant continues from exactly where it
-was: no loss, no duplicate. (Partial: a stop with a queued notification or with `Pos < LastKnwnPos` is outside.) -/
-theorem restart_no_dup_no_loss_partial (n : Nat) (l : Nat → Bool) (p : Nat → Bytes) (f : Ev → Bool) (o : Bool)
+/-- **A graceful stop never duplicates and never loses a position — quiescent or not.** `Shutdown` waits for the workers
+(`wwg.Wait()`): `halt` is enabled only when every worker has run `workerDone`, and a worker always calls `saveState` after
+its `Journals.Write` returned (no context check in between). So for *any* reachable state in which the stop completes —
+notifications may still be queued, descriptors may be behind `LastKnwnPos` — and the restart that follows:
+the pipe partition is untouched; what it holds of a source is exactly the accepted records of `[start, Pos)`; a descriptor
+that has copied anything comes back with the same `Pos` and the same start (so copying resumes exactly there: no
+duplicate, no loss); a descriptor that does not come back (never saved) had copied nothing. What a non-quiescent stop
+*can* cost is outside this statement: queued notifications are gone and data behind `LastKnwnPos` waits for the next
+write (`cex_notification_lost_at_shutdown`, ghost `stale`). -/
+theorem restart_no_dup_no_loss (n : Nat) (l : Nat → Bool) (p : Nat → Bytes) (f : Ev → Bool) (o : Bool)
+    (ls : List Label) (st1 st2 : State) (s : Nat) :
+    let st := run cfgNow (init n l p f o) ls
+    step cfgNow st .halt = some st1 → step cfgNow st1 .restart = some st2 →
+    st2.dest = st.dest ∧
+    (∀ d, (st.srcs s).desc = some d →
+      proj s st.dest = ((slice (st.srcs s).log d.start d.pos).filter st.flt).map (addProv (st.srcs s).prov) ∧
+      (d.start < d.pos → ∃ d', (st2.srcs s).desc = some d' ∧ d'.pos = d.pos ∧ d'.start = d.start) ∧
+      ((st2.srcs s).desc = none → d.pos = d.start ∧ proj s st.dest = [])) := by
+  intro st hh hr
+  have hg : GInv cfgNow st := run_ginv cfgNow _ ls (ginv_init cfgNow n l p f o)
+  simp only [step] at hh
+  split at hh
+  · rename_i hgd
+    simp only [Bool.and_eq_true, Bool.not_eq_true'] at hgd
+    simp only [Option.some.injEq] at hh; subst hh
+    simp only [step, if_true, Option.some.injEq] at hr; subst hr
+    refine ⟨rfl, ?_⟩
+    intro d hd
+    have hwk : (st.srcs s).wk = .none := by
+      by_cases e : s < st.n
+      · exact allIdle_spec st hgd.2 s e
+      · have := hg.2.2.1 s (by omega); rw [hd] at this; cases this
+    have hcopy := pipe_copy_exactly_once_in_order n l p f o ls s d hd (by intro c hc; rw [hwk] at hc; cases hc)
+    obtain ⟨_, _, _, _, _, _, a7, a8⟩ := (hg.1 s).2 d hd
+    refine ⟨hcopy, ?_, ?_⟩
+    · intro hlt
+      cases hsv : (st.srcs s).saved with
+      | none => have := a8 hsv; omega
+      | some sv =>
+        obtain ⟨c1, c2⟩ := a7 sv hsv
+        refine ⟨{ sv with charged := false, stale := decide (sv.pos < sv.lastKnown) }, ?_, c1, c2⟩
+        simp [hsv]
+    · intro hnone
+      cases hsv : (st.srcs s).saved with
+      | none =>
+        have hps := a8 hsv
+        refine ⟨hps, ?_⟩
+        rw [hcopy, hps, slice_self]; rfl
+      | some sv => simp [hsv] at hnone
+  · cases hh
+
+/-- what a **crash** (not part of the LTS: the process dies at an arbitrary reachable state) leaves for the next start:
+descriptors come back from the positions file, nothing else survives -/
+def crashRestart (st : State) : State :=
+  { st with
+    down := false
+    closed := false
+    chan := []
+    pend := []
+    cache := (fun _ => none)
+    srcs := (fun s =>
+      { st.srcs s with
+        wk := Wk.none
+        desc := (st.srcs s).saved.map (fun d => { d with charged := false, stale := decide (d.pos < d.lastKnown) }) }) }
+
+/-- **The duplicate window, exactly**: at any reachable state the position a crash would restore for a source (the saved
+`Pos`; a descriptor never saved has `Pos = start`) is the descriptor's `Pos`, the pipe partition holds the accepted
+records of `[start, c)` with `Pos ≤ c`, and `c ≠ Pos` only while the source's worker is between the return of its
+`Journals.Write` and its `saveState` (`wk = written c`). So a crash **loses nothing** and duplicates **at most the one
+batch** `[Pos, c)` of each worker that was in that window; outside the window (`c = Pos`) nothing is duplicated. A graceful
+stop is never in the window (`restart_no_dup_no_loss`). -/
+theorem crash_duplicates_at_most_one_batch (n : Nat) (l : Nat → Bool) (p : Nat → Bytes) (f : Ev → Bool) (o : Bool)
     (ls : List Label) (s : Nat) (d : Desc) :
     let st := run cfgNow (init n l p f o) ls
-    let st3 := run cfgNow st [.shutdown, .halt, .restart]
-    quiescent st = true → st.closed = false → st.down = false →
-    (st.srcs s).desc = some d → d.start < d.pos →
-    st3.dest = st.dest ∧ ∃ d', (st3.srcs s).desc = some d' ∧ d'.pos = d.pos ∧ d'.start = d.start ∧ st3.closed = false := by
-  intro st st3 hq hcl hdn hd hlt
+    (st.srcs s).desc = some d →
+    ∃ c, d.pos ≤ c ∧ c ≤ (st.srcs s).log.length ∧
+      proj s st.dest = ((slice (st.srcs s).log d.start c).filter st.flt).map (addProv (st.srcs s).prov) ∧
+      (c ≠ d.pos → (st.srcs s).wk = .written c) ∧
+      (∀ d', ((crashRestart st).srcs s).desc = some d' → d'.pos = d.pos ∧ d'.start = d.start) ∧
+      (((crashRestart st).srcs s).desc = none → d.pos = d.start) := by
+  intro st hd
   have hg : GInv cfgNow st := run_ginv cfgNow _ ls (ginv_init cfgNow n l p f o)
-  obtain ⟨_, _, _, _, _, _, a7, a8⟩ := (hg.1 s).2 d hd
-  have hidle : allIdle st = true := by
-    simp only [quiescent, Bool.and_eq_true] at hq; exact hq.2
-  cases hsv : (st.srcs s).saved with
-  | none => have := a8 hsv; omega
-  | some sv =>
-    obtain ⟨c1, c2⟩ := a7 sv hsv
-    have h1 : step cfgNow st .shutdown = some { st with closed := true } := by simp [step, hcl, hdn]
-    have hidle' : allIdle { st with closed := true } = true := hidle
-    have h2 : step cfgNow { st with closed := true } .halt =
-        some { st with closed := true, down := true, chan := [], pend := [] } := by
-      have hidle2 : allIdle { st with closed := true, down := false } = true := hidle
-      simp [step, hdn, hidle2]
-    have e3 : st3 = run cfgNow st [.shutdown, .halt, .restart] := rfl
-    simp only [run, h1, h2] at e3
-    simp only [step, if_true] at e3
-    rw [e3]
-    refine ⟨rfl, ?_⟩
-    simp only [hsv, Option.map_some]
-    exact ⟨_, rfl, c1, c2, trivial⟩
+  have hf : cfgNow.applyFilter = true := by decide
+  obtain ⟨_, a2, a3, _, _, a6, a7, a8⟩ := (hg.1 s).2 d hd
+  refine ⟨curOf (st.srcs s) d, a2, a3, by simpa [sel, hf] using a6, ?_, ?_, ?_⟩
+  · intro hne
+    cases hw : (st.srcs s).wk with
+    | written c => simp [curOf, hw]
+    | _ => simp [curOf, hw] at hne
+  · intro d' hd'
+    simp only [crashRestart] at hd'
+    cases hsv : (st.srcs s).saved with
+    | none => simp [hsv] at hd'
+    | some sv =>
+      simp only [hsv, Option.map_some, Option.some.injEq] at hd'; subst hd'
+      exact a7 sv hsv
+  · intro hnone
+    simp only [crashRestart] at hnone
+    cases hsv : (st.srcs s).saved with
+    | none => exact a8 hsv
+    | some sv => simp [hsv] at hnone
+
+/-! ### a deleted pipe whose descriptor is behind `LastKnwnPos` (finding F49) -/
+
+/-- **F49**: `startWorker` tests the *service's* context, not the pipe's. After `DeletePipe`, a descriptor with
+`Pos < LastKnwnPos` therefore makes `workerDone` start a new worker — whose context is already cancelled, so it leaves at
+once and runs `workerDone` again: the cycle `wopen, wtimeout, wdone` is enabled for ever (here: five rounds, each ends with
+a freshly started worker; nothing is copied). -/
+theorem cex_deleted_pipe_respawns_workers :
+    let st0 := run cfgNow (init 1 (fun _ => true) (fun _ => prov0) (fun _ => true) false)
+      [.create, .write 0 [evA], .enqueue 0, .notify, .wopen 0, .delete]
+    let round : List Label := [.wtimeout 0, .wdone 0, .wopen 0]
+    (∀ k, k ≤ 5 → (step cfgNow (run cfgNow st0 ((List.replicate k round).flatten ++ [.wtimeout 0])) (.wdone 0)).isSome = true) ∧
+    (run cfgNow st0 ((List.replicate 5 round).flatten)).dest = [] ∧
+    ((run cfgNow st0 ((List.replicate 5 round).flatten)).srcs 0).wk = .opened 0 := by
+  decide
 
 /-! ### non-vacuity -/
 
